@@ -11,7 +11,7 @@ PYTHONPATH=$wt timeout 600 /venv/bin/python $out/demo.py >>$log 2>&1; echo "demo
 git apply $out/patch.diff
 PYTHONPATH=$wt timeout 600 /venv/bin/python $out/demo.py >>$log 2>&1; echo "demo WITH patch: exit $?" >>$log
 # timing-sensitive tests (tests/test_performance.py) fail under machine load: they are run apart, one run at a time (flock)
-(cd $wt && PYTHONPATH=$wt timeout 1800 /venv/bin/python -m pytest -q -p no:cacheprovider --timeout=900 --ignore=tests/test_performance.py 2>&1 | tail -3) >>$log 2>&1
+(cd $wt && PYTHONPATH=$wt timeout 1800 /venv/bin/python -m pytest -q -p no:cacheprovider --timeout=900 --ignore=tests/test_performance.py -n 4 2>&1 | tail -3) >>$log 2>&1
 (cd $wt && PYTHONPATH=$wt flock /tmp/seed/perf.lock timeout 900 /venv/bin/python -m pytest -q -p no:cacheprovider --timeout=900 tests/test_performance.py 2>&1 | tail -2) >>$log 2>&1
 echo "--- check" >>$log
 # a private copy of /verif (with its build output) so that several seeds can be checked at once without sharing coq/Gen
